@@ -450,6 +450,7 @@ type Config struct {
 	Trace      bool
 	StopAfterViolations int
 	ReplayDecisions []Decision // if set: run exactly this path
+	BudgetIsViolation bool     // termination properties: exceeding the step/depth budget is the violation
 }
 
 // Result of one exploration run.
